@@ -413,14 +413,14 @@ def run(prob):
                 raise NotConvergent(str(e)[:200])
             raise
     # the Breguet range equation, fuel burn = W (exp(a) - 1) with a = R CT CD / (V CL), has a pole at L/D -> 0+: an operating point with
-    # a > 10 (L/D below ~0.2: fuel burn above 2e4 x the aircraft's mass, overflowing to inf near the pole, and every relative state error
+    # |a| > 10 (|L/D| below ~0.2: fuel burn above 2e4 x the aircraft's mass, overflowing to inf near the pole, and every relative state error
     # amplified a-fold) is not a flight condition the performance model describes; such generated points are skipped and counted
     for s in prob.model.system_iter(recurse=True):
         if type(s).__name__ == "BreguetRange" and type(s).__module__.startswith("openaerostruct"):
             i = s._inputs
             with np.errstate(all="ignore"):
                 a = float(np.ravel(i["R"] * i["CT"] / i["speed_of_sound"] / i["Mach_number"] * i["CD"] / i["CL"])[0].real)
-            if not np.isfinite(a) or a > 10.0:
+            if not np.isfinite(a) or abs(a) > 10.0:  # (for L/D -> 0- the fuel burn tends to minus the aircraft's mass: zero total weight)
                 raise NotConvergent("operating point outside the domain of the Breguet performance model (exponent %.3g at %s)" % (a, s.pathname))
     return prob
 
